@@ -1018,6 +1018,13 @@ func (g *Gen) byteAt(st *State, base, idx Term) Term {
 	return t
 }
 
+func (g *Gen) byteAtPure(st *State, base, idx Term) Term {
+	fam := elemFam(types.Typ[types.Uint8])
+	g.noteLeaf(fam, Comp{"", g.byteSort(), types.Typ[types.Uint8], "int"})
+	f := g.famTerm(st, fam, arrSort(SInt, arrSort(g.intRep(), g.byteSort())))
+	return sel(sel(f, base), idx)
+}
+
 func (g *Gen) slice(x *ssa.Slice) {
 	ir := g.intRep()
 	getI := func(v ssa.Value) (Term, bool) {
